@@ -415,6 +415,9 @@ pub fn c01_corpus() -> Vec<(ASchema, ADoc)> {
         ),
         // a fragment on an interface under an object-typed parent is dropped
         (schema.clone(), mk(vec![fld("dog", vec![fld("barks", vec![]), ASel::Inline { on: "Animal".into(), sub: vec![fld("nick", vec![])] }])], vec![])),
+        // ... and so is an INLINE fragment on the object type itself (`dog { ... on Dog { barks } name }`), also one nested in a variant
+        (schema.clone(), mk(vec![fld("dog", vec![ASel::Inline { on: "Dog".into(), sub: vec![fld("barks", vec![])] }, fld("name", vec![])])], vec![])),
+        (schema.clone(), mk(vec![fld("animal", vec![ASel::Typename, ASel::Inline { on: "Dog".into(), sub: vec![fld("name", vec![]), ASel::Inline { on: "Dog".into(), sub: vec![fld("barks", vec![])] }] }])], vec![])),
         // `Cat` joins the interface only through `extend type Cat implements Animal { meows }` (must hold: not a finding)
         (
             {
@@ -496,6 +499,11 @@ pub fn c01_finding_class_op(s: &ASchema, doc: &ADoc, op: Option<&AOp>) -> Option
             if let Some(c) = cond {
                 if !s.is_abstract(parent) && c != parent && s.is_abstract(&c) {
                     *found = Some("fragment-on-abstract-type-under-object-parent");
+                }
+                // an INLINE fragment under an object-typed parent (also one on the object type itself) is dropped as well;
+                // a SPREAD of a fragment on the object type itself is a flattened member and is kept
+                if !s.is_abstract(parent) && matches!(sel, ASel::Inline { .. }) && found.is_none() {
+                    *found = Some("inline-fragment-under-object-parent");
                 }
             }
         }
